@@ -10,15 +10,18 @@ TokSets == << << Lit8(72), Lit8(105) >>, << Lit8(65), Mt(5, 0), Lit8(66) >>, << 
 Plain(name, bytes) == [name |-> name, size |-> Len(bytes), kind |-> Uncompressed, stored |-> bytes, plain |-> bytes]
 Packed(name, toks) == LET e == LZ!Encode(toks)  d == LZ!Decode(e.bytes) IN
                       [name |-> name, size |-> Len(e.payload), kind |-> LZH, stored |-> e.bytes, plain |-> d.out]
+\* kinds the format lists but the library does not decode: listed with their stored bytes, refused on extraction
+Other(name, kind, bytes) == [name |-> name, size |-> Len(bytes) + 3, kind |-> kind, stored |-> bytes, plain |-> <<>>]
 Names3 == << <<97>>, <<98,46,120>>, <<99,99>> >>
 Emit(id, steps) == PrintT("S|" \o ToJson([id |-> id, steps |-> steps]))
 Case(ms, e, k) == [op |-> "vol_ref", image |-> RefEncode(ms, e, k),
                    listing |-> [i \in 1..Len(ms) |-> [name |-> ms[i].name, size |-> ms[i].size, kind |-> ms[i].kind, stored |-> ms[i].stored, plain |-> ms[i].plain]]]
 Init == done = FALSE
 Next == /\ ~done /\ done' = TRUE
-        /\ \A n \in 0..3 : \A kinds \in [1..n -> {1, 2}] : \A e \in 0..2 : \A k \in {0, 2, 13, 14, 15, 28} :
+        /\ \A n \in 0..3 : \A kinds \in [1..n -> {1, 2, 3}] : \A e \in 0..2 : \A k \in {0, 2, 13, 14, 15, 28} :
              LET ms == [i \in 1..n |-> IF kinds[i] = 1 THEN Plain(Names3[i], [j \in 1..(i + e) |-> (10 * i + j) % 256])
-                                                    ELSE Packed(Names3[i], TokSets[((i + e + k) % Len(TokSets)) + 1])]
+                                                    ELSE IF kinds[i] = 2 THEN Packed(Names3[i], TokSets[((i + e + k) % Len(TokSets)) + 1])
+                                                    ELSE Other(Names3[i], 257 + ((i + e) % 2), [j \in 1..(i + 2) |-> (7 * i + j) % 256])]
              IN Emit(<<n, kinds, e, k>>, << Case(ms, e, k) >>)
 Spec == Init /\ [][Next]_done
 ====
